@@ -44,7 +44,8 @@ class _Filter:
 
 
 def run(ck, build):
-    ck.rule("R-C04-WIPE", "check_tag: the wipe loop's SCEV trip count is plaintext_len; one unconditional byte store at {plaintext,+,1} of p[i] & mask; mask = 0xFF on accept, 0x00 on all 255 reject classes")
+    ck.rule("R-C04-WIPE", "check_tag: residue-affine coverage analysis (D-COV) - in every (alignment, length) class the stores to the plaintext buffer tile exactly [0, plaintext_len), "
+            "whatever the loop structure (byte loop, or head/words/tail); every such store writes (old bytes & mask) bit for bit; every mask bit used is 1 on accept and 0 on all 255 reject classes")
     ck.rule("R-C04-MASKSRC", "the mask is derived from the same accumulator whose fold gives the verdict (C03's compare-loop rules), so reject <=> mask = 0")
     ck.rule("R-C04-ARGS", "all 6 AEAD + SIV decrypt call sites pass the entry value of m (not the advanced cursor) and clen - 8 (affine equality, through the *mlen reload)")
     ck.rule("R-C04-ONLYEXIT", "for every clen class >= 8 every path returns through the single check_tag call: no exit between the first plaintext store and the verdict")
@@ -66,7 +67,18 @@ def run(ck, build):
     for g in C03.dec_fns(fx):
         C03.args_rule(sub, fx, g, "fixture")
     got = {v["construct"].split("[")[0] for v in sub.violations}
-    for want in ("wipe-trip-count", "wipe-start"):
+    for want in ("wipe-coverage", "wipe-start"):
         ck.control("c03_bad.c:" + want, want in got, "got %s" % sorted(got))
+    # negative control: a CORRECT word-at-a-time wipe must be proven, not flagged
+    nx = Module(build.fixture_facts(os.path.join(os.path.dirname(os.path.dirname(os.path.dirname(__file__))), "fixtures", "neutral_wordwise.c")))
+    sub2 = type(ck)("C04-neutral")
+    try:
+        C03.cmp_rule(sub2, nx, "neutral")
+        bad2 = [v for v in sub2.violations if v["rule"].startswith("R-C04")]
+    except Broken as e:
+        bad2 = [{"construct": "BROKEN: %s" % e}]
+    if bad2:
+        raise Broken("negative control neutral_wordwise.c is not proven (checker bug): %s" % [v["construct"] for v in bad2][:3])
+    ck.controls.append({"control": "neutral_wordwise.c (must be proven)", "fired": False, "detail": "correct word-wise wipe: coverage and values proven"})
     ck.coverage_extra.update({"decrypt_functions": [f.name for f in fns], "exhaustive": True,
                               "exhaustive_over": "all 6 decrypt call sites; all 256 accumulator values for the mask"})
